@@ -97,6 +97,8 @@ pub struct Workload {
     pub grammar_ast: Option<Grammar>,
     /// a second grammar that `LoadGrammar(true)` switches to between runs
     pub alt_grammar_text: Option<String>,
+    /// "generated" | "doc-comment grammar" | "json" | "toml" | "http" | "sql" (statistics only)
+    pub grammar_kind: String,
     pub input: String,
     pub script: Vec<Cmd>,
     pub personality: &'static str,
@@ -122,6 +124,7 @@ impl Workload {
             grammar_text: v.get("grammar")?.as_str()?.to_string(),
             grammar_ast: None,
             alt_grammar_text: v.get("alt_grammar").and_then(|x| x.as_str()).map(|x| x.to_string()),
+            grammar_kind: "replay".into(),
             input: v.get("input")?.as_str()?.to_string(),
             script: v
                 .get("script")?
@@ -1243,15 +1246,32 @@ fn stall_len(rng: &mut Rng, short_max: usize) -> u32 {
     }
 }
 
+/// small documents of a sample grammar (from the fixed corpus of the C12/C15 checks)
+fn sample_docs(be: &crate::parsework::Backend) -> Vec<String> {
+    thread_local! {
+        static CORPUS: Vec<crate::parsework::Job> = crate::parsework::fixed_corpus().jobs;
+    }
+    CORPUS.with(|c| {
+        c.iter()
+            .filter(|j| j.backend == *be && j.input.len() <= 120)
+            .map(|j| j.input.clone())
+            .collect()
+    })
+}
+
 fn doc_input(rng: &mut Rng) -> String {
     let words = ["test", "test2", "a", "b1", "x9y", "1x", "Zq", ""];
-    let n = rng.range(1, 4);
+    // occasionally a long list: positions beyond one byte, hundreds of rule entries
+    let long = rng.chance(1, 25);
+    let n = if long { rng.range(60, 140) } else { rng.range(1, 4) };
     let mut s = String::new();
     for i in 0..n {
         if i > 0 {
             s.push(' ');
         }
-        s.push_str(words[rng.below(words.len())]);
+        // a long list keeps to words that are identifiers, so that the parse really walks it
+        let k = if long && i + 3 < n { rng.below(5) } else { rng.below(words.len()) };
+        s.push_str(words[k]);
     }
     if rng.chance(1, 8) {
         s.push('!');
@@ -1262,14 +1282,35 @@ fn doc_input(rng: &mut Rng) -> String {
 /// Generate one workload from the workload stream. Returns None (and counts) when the candidate
 /// grammar is rejected by the real front-end or a reference parse is too expensive.
 pub fn gen_workload(rng: &mut Rng, stats: &mut GenStats) -> Option<(Workload, Vec<RunRef>)> {
-    let use_doc = rng.chance(1, 5);
-    let (text, ast, rule_names, start_candidates): (String, Option<Grammar>, Vec<String>, Vec<String>) = if use_doc {
+    // grammar: generated (most runs), the doc-comment grammar of the debugger crate, or one of
+    // the repository's sample grammars with one of its small documents
+    let kind = rng.below(20);
+    let mut grammar_kind = if kind < 4 { "doc-comment grammar" } else { "generated" }.to_string();
+    let mut fixed_inputs: Vec<String> = vec![];
+    let (text, ast, rule_names, start_candidates): (String, Option<Grammar>, Vec<String>, Vec<String>) = if kind < 4 {
         (
             DOC_GRAMMAR.to_string(),
             None,
             vec!["alpha".into(), "digit".into(), "ident".into(), "ident_list".into()],
             vec!["ident_list".into(), "ident_list".into(), "ident".into()],
         )
+    } else if kind == 4 {
+        let (file, top, be): (&str, &str, crate::parsework::Backend) = match rng.below(4) {
+            0 => ("json", "json", crate::parsework::Backend::Json),
+            1 => ("toml", "toml", crate::parsework::Backend::Toml),
+            2 => ("http", "http", crate::parsework::Backend::Http),
+            _ => ("sql", "Command", crate::parsework::Backend::Sql),
+        };
+        let text = std::fs::read_to_string(format!("/repo/grammars/src/grammars/{file}.pest")).ok()?;
+        let names: Vec<String> = pest_meta::parse_and_optimize(&text)
+            .ok()?
+            .1
+            .iter()
+            .map(|r| r.name.clone())
+            .collect();
+        fixed_inputs = sample_docs(&be);
+        grammar_kind = format!("sample grammar {file}.pest");
+        (text, None, names, vec![top.to_string()])
     } else {
         let g = gen::gen_grammar(
             rng,
@@ -1297,6 +1338,7 @@ pub fn gen_workload(rng: &mut Rng, stats: &mut GenStats) -> Option<(Workload, Ve
     let start = start_candidates[rng.below(start_candidates.len())].clone();
     let mk_input = |rng: &mut Rng| -> String {
         match &ast {
+            None if !fixed_inputs.is_empty() => fixed_inputs[rng.below(fixed_inputs.len())].clone(),
             None => doc_input(rng),
             Some(g) => {
                 let si = g.rules.iter().position(|r| r.name == start).unwrap_or(0);
@@ -1398,7 +1440,7 @@ pub fn gen_workload(rng: &mut Rng, stats: &mut GenStats) -> Option<(Workload, Ve
             script.push(Cmd::Protocol { max: 10_000 });
         }
         _ => {
-            let restarts = rng.range(1, 3);
+            let restarts = if rng.chance(1, 30) { rng.range(6, 12) } else { rng.range(1, 3) };
             for _ in 0..restarts {
                 // some progress first
                 match rng.below(6) {
@@ -1472,6 +1514,7 @@ pub fn gen_workload(rng: &mut Rng, stats: &mut GenStats) -> Option<(Workload, Ve
         grammar_text: text,
         grammar_ast: ast,
         alt_grammar_text: alt_text,
+        grammar_kind,
         input,
         script,
         personality,
